@@ -76,6 +76,8 @@ def run_one(m):
                 outcome = 'DETECTED'
             elif p.returncode == 1:
                 outcome = 'DETECTED-OTHER-RULE'
+            elif p.returncode == 2 and m.get('accept_error'):
+                outcome = 'DETECTED'     # exit 2: refused to pass silently
             elif p.returncode == 2:
                 outcome = 'ANALYSIS-ERROR'
             else:
